@@ -18,7 +18,7 @@ from fractions import Fraction
 from harness import core
 
 MANIFEST_ENTRY = {
-    "text": "Lean theorems prove for the model of the five-level propagation (global parameter files, site type, site, equipment group, source): the value in effect is that of the most granular level that specifies the parameter and the global one if none does, for every list of levels (most_granular_wins, most_granular_wins_global, resolve_eq_last_specified: list induction), unspecified levels are neutral (unspecified_is_identity), the dictionary-passing model of the code equals these closed forms at every source, equipment group and site under decidable well-formedness of the key tables (source_plain_closed_form, source_epr_closed_form, source_meth_closed_form, group_survey_closed_form, site_meth_closed_form), per-site production rate, survey time and survey cost split over groups and components add back up exactly over the rationals (split_conserved, placeholder_split_conserved, survey_split_conserved, site_cost_conserved, site_time_conserved), a sample of n distinct rows yields exactly n sites with distinct ids (site_count, site_ids_distinct) and the groups/components/sources the files describe (structure_*). The key tables (which key each level uses for each parameter, the un-prefixing rule of the source level) are re-extracted from the source on every run and the obligations over them (same key at every level, un-prefixing maps each prefixed key to the key the source reads) are discharged by decide. The model is tied to the real Infrastructure/Site/Equipment_Group/Component/Source classes by differential correspondence on generated input folders on every run, and the property's clauses are evaluated directly on the constructed objects.",
+    "text": "Lean theorem C15 proves C15_statement over the model of the five-level propagation (global parameter files, site type, site, equipment group, source) instantiated with the key tables extracted from the source: for all parameter files, infrastructure files and samples, every source carries for every propagating parameter the value of the most granular level that specifies it and the global one if none does (most_granular_wins, most_granular_wins_global, resolve_eq_last_specified, unspecified_is_identity by list induction over any number of levels; source_most_granular_wins, source_production_rate_spec, source_coverage_most_granular_wins, group_survey_spec, site_most_granular_wins, placeholder_second_source: the dictionary-passing model of the code equals these closed forms under decidable well-formedness of the key tables), per-site production rate, survey time and survey cost split over groups and components add back up exactly over the rationals (split_conserved, placeholder_split_conserved, survey_split_conserved, site_production_rate_conserved(_nonrep), site_cost_conserved, site_time_conserved), a sample of n distinct rows yields exactly n sites with distinct ids (site_count, site_ids, site_ids_distinct) with the groups, components and sources the files describe (structure_groups_named/_numeric, structure_components, structure_sources_file/_placeholder(_ctx), structure_placeholder_counts). The key tables (which key each level uses for each parameter, the scaled and popped entries, the un-prefixing rule of the source level) are re-extracted from the source by an ast pass on every run and the obligations over them (tables_same_key_every_level, tables_level_keys_agree, tables_level_meth_keys_agree, tables_level_keys_cover, tables_unprefix_rule, tables_scaled_entries, tables_pops, tables_placeholder_names, tables_placeholder_shared_dict, tables_global_paths) are discharged by decide. The model is tied to the real Infrastructure/Site/Equipment_Group/Component/Source classes by differential correspondence on generated input folders on every run, and the property's clauses are evaluated directly on the constructed objects.",
     "design_ref": "DESIGN.md 5.15",
     "note": "trusted: Lean kernel + propext/Classical.choice/Quot.sound; the hand-written model (tied by sampled correspondence, not proof); the ast extractor of the key tables; harness adapters; CSV parsing by pandas (cells are read back and compared with the intended values on every case) and DataFrame.sample (the sampled rows are an input of the model, distinctness is checked on the implementation); exact-double grids (production rates 45m/2^13 resp. 9m/2^15, survey time/cost multiples of 1.5) so no tolerance is used; emission generation from the effective values is C16",
     "technique": "Lean 4 list-induction and closed-form proofs over a dictionary-passing model + key tables extracted from the source (decide) + differential correspondence with the real classes + direct oracle",
@@ -735,7 +735,9 @@ def run(ctx):
     if len(ok_grid[False]) < 100 or len(ok_grid[True]) < 30:
         raise core.InfraError("pandas does not read the production-rate grid back exactly")
 
-    n_cases = ctx.pick(900, 12000)
+    micro_correspondence(ctx, tables)
+
+    n_cases = ctx.pick(900, 10000)
     cases = []
     forced = [{"mode": "named"}, {"mode": "numeric"}, {"mode": "named", "reject": True}, {"mode": "numeric", "reject": True}]
     for i in range(n_cases):
@@ -779,6 +781,47 @@ def run(ctx):
     ctx.extra["level_subsets_hit"] = len([k for k in collect if k[0] not in ("placeholder", "named")])
     ctx.assumptions.append("production rates on the grids 45m/2^13 (named equipment) and 9m/2^15 (numeric equipment, group count chosen so that the placeholder split is exact), survey time/cost multiples of 1.5 (site) "
                            "or 0.25 (group): every division and sum of the code is exact in doubles")
+
+
+def micro_correspondence(ctx, tables):
+    """the model's helper functions against the Python primitives they stand for (exhaustive on small
+    domains): resolve on all 2^5 subsets of levels, round-half-even against `round`, the `_equipment`
+    strip against `re.sub(..., re.IGNORECASE)`, the un-prefixing against `in` / `re.sub`"""
+    import itertools
+    import re
+    lines, want = [], []
+    for mask in itertools.product([False, True], repeat=5):
+        vals = ["t%d" % (10 + i) if on else "-" for i, on in enumerate(mask)]
+        lines.append("resolve t9 [%s]" % ",".join(vals))
+        spec = [v for v in vals if v != "-"]
+        want.append(spec[-1] if spec else "t9")
+    for d in (1, 2, 4, 8):
+        for n in range(-41, 42):
+            lines.append("round %d %d" % (n, d))
+            r1, r2 = round(Fraction(n, d)), round(n / d)
+            if r1 != r2:
+                raise core.InfraError("round(Fraction) != round(float) on a dyadic value")
+            want.append(str(r1))
+    pat = re.compile(re.escape("_equipment"), re.IGNORECASE)
+    names = [tables["placeholderBoth"], tables["placeholderRep"], tables["placeholderNonRep"], "c1", "c2",
+             "pump_equipment", "PUMP_EQUIPMENT_x", "a_Equipment_equipment", "_equipmen", "x_equipment_equip",
+             "_equipment", "tank_EQUIPMENT", "_equip_equipmentment"]
+    for nm in names:
+        lines.append("strip " + nm)
+        want.append(re.sub(pat, "", nm))
+    keys = list(tables["globalPlain"]) + ["repairable_", "non_repairable_", "xrepairable_yrepairable_z",
+                                          "repairable_repairable_duration", "duration", "repairabl_duration"]
+    for pre in (tables["repPrefix"], tables["nonRepPrefix"]):
+        for k in keys:
+            lines.append("unprefix %s %s" % (pre, k))
+            want.append(("1" if pre in k else "0") + " " + re.sub(pre, "", k))
+    got = core.LeanDriver("drv_propagate").run(lines)
+    for l, g, w in zip(lines, got, want):
+        ctx.evaluations += 1
+        if g.strip() != w.strip():
+            ctx.disagree("propagate-helpers", {"line": l}, g, w)
+    ctx.count("helper_lines", len(lines))
+    ctx.traces += len(lines)
 
 
 def replay(ctx, data):
